@@ -50,6 +50,9 @@ class InputSlot(Observers, Obj):
 class Delta(Obj):
     cls = "delta"
 
+    def m_has_value(self, I, args, n):
+        return I.ctx.fresh("delta_has_value", "bool")
+
     def __init__(self, how, slot):
         Obj.__init__(self, name="delta")
         self.how, self.slot = how, slot
@@ -84,6 +87,17 @@ class Bundle(Obj):
 
 class SourceNode(Obj):
     cls = "NodeView(source)"
+
+
+class StateView(Obj):
+    """the source node's delta state, read for observation: arbitrary answers, no effects"""
+    cls = "ValueView(state)"
+
+    def m_has_value(self, I, args, n):
+        return I.ctx.fresh("state_has_value", "bool")
+
+    def m_equals(self, I, args, n):
+        return I.ctx.fresh("state_equals", "bool")
 
 
 class FeedbackKernel(Kernel):
@@ -156,7 +170,7 @@ class FeedbackKernel(Kernel):
         return self.src_has_state
 
     def s_state(self, I, o, a, n):
-        return Obj("ValueView", "state")
+        return StateView(name="state")
 
     def s_replace_state(self, I, o, a, n):
         ctx = I.ctx
@@ -388,3 +402,85 @@ class FeedbackGlue(Lemma):
 
 KERNELS = [EvaluateFeedbackSink, EvaluateFeedbackSource, StartFeedbackSource, MakeFeedbackSink]
 LEMMAS = [FeedbackGlue]
+
+
+# ------------------------------------------------------------------ control.h feedback_detail::make_feedback (E2: instantiated in a
+# generated translation unit that only includes the real header)
+
+extract.GEN_TUS["feedback_instance"] = (
+    "#include <hgraph/lib/std/operators/control.h>\n"
+    "namespace cxxvc_inst { inline void make_feedback_instance(hgraph::Wiring &w) "
+    "{ (void)hgraph::stdlib::feedback<hgraph::TS<hgraph::Int>>(w); } }\n")
+
+
+class MakeFeedback(Kernel):
+    tu = "gen:feedback_instance"
+    extraction_mode = "E2 generated TU: #include of the real control.h plus one instantiation feedback<TS<Int>>"
+    name = "control.h:feedback_detail::make_feedback<TS<Int>>"
+    fn_name = "make_feedback"
+    filter = "make_feedback"
+    targs = ("hgraph::TS<",)
+    property_ids = ("C08", "C06")
+    scope = {"lo": 0, "hi": 3}
+    title = "make_feedback: every feedback gets its own source node (its own state), never an interned one"
+
+    def setup(self, I):
+        ctx = I.ctx
+        g = Obj("ghost", "mg")
+        self.g = g
+        for nm in ("unique_adds", "interned_adds"):
+            ctx.store[(g.oid, nm)] = z3.IntVal(0)
+        ctx.store[(g.oid, "scalars_ok")] = z3.BoolVal(False)
+        self.initial = Obj("Value", "initial_delta")
+        self.has_initial = z3.Bool("has_initial_delta")
+        k = self
+        w = Obj("Wiring", "w")
+
+        def add(kind):
+            def h(I_, a, n):
+                c = I_.ctx
+                c.write(Loc((g.oid, kind)), c.store[(g.oid, kind)] + 1)
+                c.write(Loc((g.oid, "scalars_ok")), z3.BoolVal(c.rv(a[3]) is k.initial))
+                return Obj("WiringPortRef", "ref")
+            return h
+        w.m_add_unique_node = add("unique_adds")
+        w.m_add_node = add("interned_adds")
+        return None, {"w": w, "initial_delta": self.initial, "has_initial_delta": self.has_initial}
+
+    def function_handler(self, name, node, callee_node):
+        if name in ("require_feedback_schema",):
+            return lambda I, a, n: Ptr(Obj("schema", "schema"))
+        if name in ("ts_meta",):
+            return lambda I, a, n: Ptr(Obj("schema", "schema"))
+        if name == "validate_initial_delta":
+            def v(I, a, n):
+                if I.ctx.choose(2, "validate_initial_delta outcome") == 1:
+                    I.throw_from_callee("validate_initial_delta", cls="std::invalid_argument")
+                return VOID
+            return v
+        if name == "make_feedback_source_node":
+            return lambda I, a, n: Obj("NodeBuilder", "builder")
+        if name == "move":
+            return lambda I, a, n: I.ctx.rv(a[0])
+        return Kernel.function_handler(self, name, node, callee_node)
+
+    def ctor_handler(self, qt, node):
+        if qt.endswith("NodeBuilder") or qt.endswith("WiringPortRef") or qt.endswith("Value"):
+            return lambda I, args, n: (I.ctx.rv(args[0]) if args else Obj("value", "empty"))
+        if "type_index" in qt or "span<" in qt or "Port<" in qt or "FeedbackWiringPort" in qt:
+            return lambda I, args, n: Obj("opaque", qt[-24:])
+        return Kernel.ctor_handler(self, qt, node)
+
+    def post(self, I, ret):
+        ctx = I.ctx
+        g = lambda nm: ctx.store[(self.g.oid, nm)]
+        ctx.oblige("ensures.the-source-node-is-added-once,as-a-unique-node,with-the-initial-delta-as-its-scalars[C08 each feedback "
+                   "delivers exactly the values written to it; C06 sharing never merges two feedbacks]",
+                   z3.And(g("unique_adds") == 1, g("interned_adds") == 0, g("scalars_ok")), kind="post-normal")
+
+    def post_exc(self, I, exc):
+        I.ctx.oblige("raises.only-for-an-invalid-initial-value", z3.BoolVal(exc.origin == "validate_initial_delta"),
+                     kind="post-exceptional")
+
+
+KERNELS += [MakeFeedback]
